@@ -1,11 +1,11 @@
 #!/bin/bash
-# scripts/seed_confirm.sh <Cxx> <A|B> [check-prop ...]
+# scripts/seed_confirm.sh <Cxx> <A|B|C|D> [check-prop ...]   (SEED_OUT=/tmp/seed/<Cxx>-out3 for the third round)
 # Confirms a seeded change in its scratch worktree (/tmp/seed/<Cxx>): applies, builds, runs the repo's test suite,
 # runs the demonstration with and without the change; then runs the named checks against it via scripts/mutant.sh.
 # Results are appended to /verif/seeded/<Cxx>-<A|B>/confirm.log; nothing is left applied anywhere.
 set -u
 id="$1"; ab="$2"; shift 2
-wt=/tmp/seed/$id; out=/tmp/seed/$id-out; dst=/verif/seeded/$id-$ab
+wt=/tmp/seed/$id; out=${SEED_OUT:-/tmp/seed/$id-out}; dst=/verif/seeded/$id-$ab
 mkdir -p "$dst"; log="$dst/confirm.log"; : > "$log"
 cp "$out/$ab.patch.diff" "$dst/patch.diff"; cp "$out/$ab.demo.sh" "$dst/demo.sh"; cp "$out/$ab.meta.json" "$dst/agent_meta.json"
 cd "$wt" || exit 2
